@@ -64,8 +64,11 @@ class C05(Prop):
         for proc, n, b in self.grid(tier):
             key = (proc, n)
             if key not in systems:
+                # weights: one row of W per sample, or ONE per-receptor vector for all samples (then the number of samples is made equal to the
+                # number of receptors where possible: a vector of that length must still be read per receptor)
+                wvec = rng.random() < 0.4
                 for _ in range(50):
-                    sys = gs.gen_system(rng, mrange=(2, 4), nrange=(2, 5), finite_ub=True, Kkind=rng.choice(["none", "scalar", "vector"]))
+                    sys = gs.gen_system(rng, mrange=((n, n) if (wvec and 2 <= n <= 4) else (2, 4)), nrange=(2, 5), finite_ub=True, Kkind=rng.choice(["none", "scalar", "vector"]))
                     if proc in ("poisson", "excitation") and (np.ndim(sys["baseline"]) == 0 and sys["baseline"] == 0):
                         sys["baseline"] = 1.0; sys["bkind"] = "scalar"
                     rows, kinds = [], []
@@ -81,18 +84,25 @@ class C05(Prop):
                     # two rows share a target but not their weights (row independence must still hold)
                     rows[n - 1] = list(rows[0]); kinds[n - 1] = kinds[0]
                 W = [[rng.randint(2, 8) / 4 for _ in range(sys["m"])] for _ in range(n)]
+                if wvec:
+                    W = [list(W[0]) for _ in range(n)]
+                sys["wvec"] = bool(wvec)
                 systems[key] = ({k: (v.tolist() if isinstance(v, np.ndarray) else v) for k, v in sys.items()}, rows, W, kinds)
             sysd, rows, W, kinds = systems[key]
             cases.append({"proc": proc, "n": n, "bs": b, "sys": sysd, "B": rows, "W": W, "tk": kinds,
-                          "kind": "%s/%s" % (proc, combo_kind(n, b))})
+                          "kind": "%s/%s%s" % (proc, combo_kind(n, b), "/wvec" if sysd.get("wvec") else "")})
         return cases
 
     def call(self, case, bs):
         from p_C04 import C04
         sys = C04.sysnp(case)
-        est = gs.make_estimator(sys, w=1.0)
         B = np.array(case["B"], dtype=float); W = np.array(case["W"], dtype=float)
-        est.register_targets(B, W=W)
+        if case["sys"].get("wvec"):
+            est = gs.make_estimator(sys, w=W[0])          # per-receptor weights given once, as a vector
+            est.register_targets(B)
+        else:
+            est = gs.make_estimator(sys, w=1.0)
+            est.register_targets(B, W=W)
         proc = case["proc"]
         core.drain_hooks()
         if proc == "variance":
